@@ -27,7 +27,7 @@ def apply(paths, dev, ctx: Ctx, rev: str, exitw: str, stats=None):
             cl = c.classify(blk)
             if cl is None:
                 raise SimError("unknown block row %r" % (blk,))
-            c = c.child(cl[0])
+            c = c.child(cl[0], blk)
             cur = cur[blk]
         cmd = p[-1]
         if exitw and cmd == exitw and len(p) > 1:
@@ -74,7 +74,7 @@ def expect(old, new, ctx: Ctx):
         if r.get("logic") == "common.ignore_changes" and oldsame and oldsame[0] != row:
             out[oldsame[0]] = odict()
             continue
-        out[row] = expect(old.get(row, odict()), ch, ctx.child(r)) if is_block(r) else odict()
+        out[row] = expect(old.get(row, odict()), ch, ctx.child(r, row)) if is_block(r) else odict()
     for row, ch in old.items():
         cl = ctx.classify(row)
         if cl is None:
@@ -83,7 +83,7 @@ def expect(old, new, ctx: Ctx):
         r, key = cl
         ident = (r["id"], key)
         if r.get("logic") == "common.permanent" and not any(ctx.ident(n) == ident for n in new):
-            out[row] = expect(ch, odict(), ctx.child(r)) if is_block(r) else odict()
+            out[row] = expect(ch, odict(), ctx.child(r, row)) if is_block(r) else odict()
     return out
 
 
@@ -106,7 +106,7 @@ def same_state(got, exp, ctx: Ctx):
             if got[r] != exp[r]:
                 return "unknown row %r subtree changed" % (r,)
             continue
-        why = same_state(got[r], exp[r], ctx.child(cl[0]))
+        why = same_state(got[r], exp[r], ctx.child(cl[0], r))
         if why:
             return "in %r: %s" % (r, why)
     return None
